@@ -363,6 +363,11 @@ func checkValue(c Case) error {
 		if diff := gen.Diff(want, got); diff != "" {
 			return stats.Failf(key("roundtrip"), "%s: decode(encode(v)) != v (after documented normalisations): %s\n enc %s", e.Name, diff, hx(enc))
 		}
+		// (1b) the decoded value owns its memory: no list whose spare capacity covers another list's elements
+		// (the library itself appends to decoded Merkle proofs in UpdateElementProof)
+		if herr := gen.AppendHazard(d.V); herr != nil {
+			return stats.Failf(key("decoded-aliasing"), "%s: the decoded value is equal now but aliases itself: %v\n enc %s", e.Name, herr, hx(enc))
+		}
 		// (2b) canonical re-encoding
 		enc3, err, panicked := safeEncode(e, d.V)
 		if panicked || err != nil {
